@@ -172,6 +172,37 @@ func findSliceRanges(f *ssa.Function) []*sliceRange {
 		}
 		ln, ok := cmp.Y.(*ssa.Call)
 		if !ok || builtinName(ln) != "len" {
+			// range over an array (value or pointer): the bound is the constant length;
+			// the ranged array is the one indexed with the loop counter in the body
+			if n, isK := constInt(cmp.Y); isK && n >= 0 {
+				var arr ssa.Value
+				for _, blk := range f.Blocks {
+					for _, in := range blk.Instrs {
+						var x, idx ssa.Value
+						switch y := in.(type) {
+						case *ssa.IndexAddr:
+							x, idx = y.X, y.Index
+						case *ssa.Index:
+							x, idx = y.X, y.Index
+						default:
+							continue
+						}
+						if idx != ssa.Value(inc) {
+							continue
+						}
+						t0 := x.Type()
+						if p, isP := t0.Underlying().(*types.Pointer); isP {
+							t0 = p.Elem()
+						}
+						if a, isA := t0.Underlying().(*types.Array); isA && a.Len() == n && arr == nil {
+							arr = x
+						}
+					}
+				}
+				if arr != nil {
+					out = append(out, &sliceRange{X: arr, Idx: inc, Header: b, Body: t, Done: fl})
+				}
+			}
 			continue
 		}
 		out = append(out, &sliceRange{X: ln.Call.Args[0], Idx: inc, Header: b, Body: t, Done: fl})
